@@ -912,13 +912,15 @@ def run_cli(case):
         warnings.showwarning = saved
     content = None
     if target and os.path.exists(target):
-        with open(target) as f:
+        with open(target, newline='') as f:
             content = f.read()
         os.unlink(target)
     exc = None
     if result.exception is not None and not isinstance(result.exception, SystemExit):
         exc = impl.exc_class(result.exception) + ':' + str(result.exception)[:200]
-    return {'stdout': result.stdout, 'stderr': result.stderr, 'file': content, 'exit': result.exit_code, 'exc': exc}
+    # Result.stdout/.stderr normalise \r\n to \n; the csv writer's line ends matter, so decode the bytes
+    return {'stdout': result.stdout_bytes.decode('utf-8'), 'stderr': result.stderr_bytes.decode('utf-8'),
+            'file': content, 'exit': result.exit_code, 'exc': exc}
 
 
 def expected_cli(case, m):
